@@ -1,0 +1,161 @@
+//go:build verif
+// +build verif
+
+package discovery
+
+// Machine-checked contracts for target discovery bookkeeping (read by /verif/engine, see /verif/DESIGN.md).
+// This file contains comments only and is excluded from every normal build by the tag "verif".
+
+/*@
+// ---------- C17: per-operation contracts of the discovered-target sets ----------
+// (each operation runs inside one critical section of targetsLock; interleavings with readers are then serial
+// orders of these operations - mutual exclusion itself is assumed, not verified)
+
+pred wfTargets(l, jn) = forall t in l :: t != nil && t.ShardTarget != nil && t.Job == jn
+pred wfDiscovery(m) = m != nil && m.activeTargets != nil && m.dropTargets != nil && m.activeTargets != m.dropTargets
+    && (forall jn, c in m.config :: c != nil && c.JobName == jn)
+    && (forall jn, l in m.activeTargets :: jn in m.config && jn in m.dropTargets && wfTargets(l, jn))
+    && (forall jn, l in m.dropTargets :: jn in m.config && wfTargets(l, jn))
+
+// a reload keeps, for every job of the new configuration that had targets, the very same slices, and drops all others at once
+contract TargetsDiscovery.ApplyConfig
+  requires wfDiscovery(m) && cfg != nil && cfg.Config != nil && (forall j in cfg.Config.ScrapeConfigs :: j != nil)
+  ensures[C17] @kept_jobs_keep_their_targets forall j in cfg.Config.ScrapeConfigs :: (j.JobName in old(keys(m.activeTargets)) ==>
+        (j.JobName in m.activeTargets && m.activeTargets[j.JobName] == old(m.activeTargets[j.JobName]) && m.dropTargets[j.JobName] == old(m.dropTargets[j.JobName])))
+  ensures[C17] @only_configured_jobs_remain forall jn in m.activeTargets :: (jn in m.config && jn in old(keys(m.activeTargets)))
+  ensures[C17] @only_configured_jobs_remain_dropped forall jn in m.dropTargets :: jn in m.config
+  ensures[C17] @config_is_the_new_one (forall j in cfg.Config.ScrapeConfigs :: j.JobName in m.config) && wfDiscovery(m)
+  modifies TargetsDiscovery.config at {m}, TargetsDiscovery.activeTargets at {m}, TargetsDiscovery.dropTargets at {m},
+           mapof(TargetsDiscovery.activeTargets) at {}, mapof(TargetsDiscovery.config) at {}
+  loop 1 invariant fresh(newActiveTargets) && fresh(newDropTargets) && fresh(newCfg) && newActiveTargets != nil && newDropTargets != nil && newCfg != nil && newActiveTargets != newDropTargets
+  loop 1 invariant m.activeTargets == old(m.activeTargets) && m.dropTargets == old(m.dropTargets) && m.config == old(m.config)
+  loop 1 invariant forall k in 0..idx1 :: (cfg.Config.ScrapeConfigs[k].JobName in newCfg
+        && (cfg.Config.ScrapeConfigs[k].JobName in m.activeTargets ==> (cfg.Config.ScrapeConfigs[k].JobName in newActiveTargets
+              && newActiveTargets[cfg.Config.ScrapeConfigs[k].JobName] == m.activeTargets[cfg.Config.ScrapeConfigs[k].JobName]
+              && newDropTargets[cfg.Config.ScrapeConfigs[k].JobName] == m.dropTargets[cfg.Config.ScrapeConfigs[k].JobName])))
+  loop 1 invariant forall jn in newActiveTargets :: (jn in newCfg && jn in m.activeTargets && jn in newDropTargets && newActiveTargets[jn] == m.activeTargets[jn])
+  loop 1 invariant forall jn in newDropTargets :: (jn in newCfg && jn in m.dropTargets && newDropTargets[jn] == m.dropTargets[jn])
+  loop 1 invariant forall jn, c in newCfg :: c != nil && c.JobName == jn
+
+// "Every read returns a snapshot that is not affected by later updates": a fresh map holding the current slices; the
+// internal maps are not written, and updates replace slices instead of writing into them
+contract TargetsDiscovery.ActiveTargets
+  requires wfDiscovery(m)
+  ensures[C17] @snapshot_of_active result != nil && fresh(result) && keys(result) == keys(m.activeTargets) && (forall k in result :: result[k] == m.activeTargets[k])
+  modifies mapof(TargetsDiscovery.activeTargets) at {}
+  loop 1 invariant ret != nil && fresh(ret) && (forall k in visited1 :: (k in ret && ret[k] == m.activeTargets[k])) && (forall k in ret :: k in visited1) && (forall k in visited1 :: k in m.activeTargets)
+
+contract TargetsDiscovery.DropTargets
+  requires wfDiscovery(m)
+  ensures[C17] @snapshot_of_dropped result != nil && fresh(result) && keys(result) == keys(m.dropTargets) && (forall k in result :: result[k] == m.dropTargets[k])
+  modifies mapof(TargetsDiscovery.activeTargets) at {}
+  loop 1 invariant ret != nil && fresh(ret) && (forall k in visited1 :: (k in ret && ret[k] == m.dropTargets[k])) && (forall k in ret :: k in visited1) && (forall k in visited1 :: k in m.dropTargets)
+
+// the by-hash view the coordinator plans with: every entry is keyed by its own hash
+contract TargetsDiscovery.ActiveTargetsByHash
+  requires wfDiscovery(m)
+  ensures[C17,C01] @keyed_by_own_hash result != nil && fresh(result) && (forall h, t in result :: t != nil && t.ShardTarget != nil && t.ShardTarget.Hash == h)
+  ensures[C17] @every_active_target_is_present forall jn, l in m.activeTargets :: forall t in l :: t.ShardTarget.Hash in result
+  modifies nothing
+  loop 1 invariant ret != nil && fresh(ret) && (forall h, t in ret :: t != nil && t.ShardTarget != nil && t.ShardTarget.Hash == h)
+  loop 1 invariant forall jn in visited1 :: forall t in m.activeTargets[jn] :: t.ShardTarget.Hash in ret
+  loop 1 invariant forall jn in visited1 :: jn in m.activeTargets
+  loop 2 invariant ret != nil && fresh(ret) && (forall h, t in ret :: t != nil && t.ShardTarget != nil && t.ShardTarget.Hash == h)
+  loop 2 invariant forall jn in visited1 :: (jn != key1 ==> forall t in m.activeTargets[jn] :: t.ShardTarget.Hash in ret)
+  loop 2 invariant forall jn in visited1 :: jn in m.activeTargets
+  loop 2 invariant key1 in m.activeTargets && ts == m.activeTargets[key1] && (forall j in 0..idx2 :: ts[j].ShardTarget.Hash in ret)
+
+// ---------- one discovery update (C17) and the construction of targets from a group (C15) ----------
+// (the label pipeline itself - populateLabels, relabeling, URL construction - is Prometheus library code: abstracted)
+decl thash(int, int) : int
+// (assumed) the final label set is a freshly built slice (labels.Builder.Labels)
+contract populateLabels
+  ensures result0 == nil || fresh(result0)
+  modifies nothing
+
+// the digest: a function of the (sorted) final label set and the URL text; sorting rearranges lbls in place
+contract targetHash
+  ensures result == thash(baseof(lbls), url)
+  modifies elemsof(lbls)
+
+contract labelsWithoutConfigParam
+  ensures fresh(result)
+  modifies nothing
+contract supportInvalidLabelName
+  ensures fresh(result)
+  modifies nothing
+
+contract targetsFromGroup
+  requires tg != nil && cfg != nil
+  ensures result1 == nil ==> fresh(result0) && (forall t in result0 :: t != nil && fresh(t) && t.ShardTarget != nil && fresh(t.ShardTarget) && t.PromTarget != nil && t.Job == cfg.JobName)
+  ensures[C15] @equal_entries_collapse_into_one result1 == nil ==> (forall a in 0..len(result0) :: forall b in 0..len(result0) :: a != b ==> result0[a].ShardTarget.Hash != result0[b].ShardTarget.Hash)
+  ensures[C15] @hash_is_of_the_final_labels_and_url result1 == nil ==> (forall t in result0 :: t.ShardTarget.Hash == thash(t.PromTarget.gLabels, t.PromTarget.gURLStr))
+  modifies gHashIdx, gPending, gPendingDropped, SDTargets.* at {}, target.Target.* at {}, github.com/prometheus/prometheus/scrape.Target.* at {}, net/url.URL.* at {}
+  loop 1 invariant fresh(targets) && fresh($exists) && $exists != nil
+  loop 1 invariant forall t in targets :: t != nil && fresh(t) && allocated(t) && t.ShardTarget != nil && fresh(t.ShardTarget) && allocated(t.ShardTarget) && t.PromTarget != nil && t.Job == cfg.JobName && (t.ShardTarget.Hash in $exists) && $exists[t.ShardTarget.Hash]
+        && t.ShardTarget.Hash == thash(t.PromTarget.gLabels, t.PromTarget.gURLStr)
+  loop 1 invariant forall a in 0..len(targets) :: forall b in 0..len(targets) :: a != b ==> targets[a].ShardTarget.Hash != targets[b].ShardTarget.Hash
+  loop 1 invariant forall h in $exists :: ($exists[h] ==> (0 <= gHashIdx[h] && gHashIdx[h] < len(targets) && targets[gHashIdx[h]].ShardTarget.Hash == h))
+  atentry do gPending = nil
+  loop 1 invariant[C17] @every_dropped_entry_is_kept (gPending != nil && gPendingDropped) ==> (len(targets) > 0 && targets[len(targets) - 1].PromTarget == gPending)
+  loop 2 invariant fresh(lbls)
+  loop 3 invariant fresh(lbls)
+
+// the Prometheus target constructed last, and whether it is a dropped one (no final labels): a dropped target is
+// always kept - Prometheus de-duplicates only targets that have labels, its dropped list holds every dropped entry (C17)
+ghost global gPending ref
+ghost global gPendingDropped bool
+on after "github.com/prometheus/prometheus/scrape.NewTarget"(labels, discoveredLabels, params) in targetsFromGroup
+   do gPending = result
+   do gPendingDropped = (len(labels) == 0)
+
+// witness: the position in the result of the target that carries a recorded hash
+ghost global gHashIdx seq[int]
+on insert_local "map[uint64]bool"(m, k, v) in targetsFromGroup
+   do gHashIdx = seqset(gHashIdx, k, len(targets))
+
+// one update: for every job of the update that is configured, the job's active and dropped sets are REPLACED by freshly
+// built lists (existing lists are not written: earlier snapshots stay as they were); every other job is untouched
+contract TargetsDiscovery.translateTargets
+  requires wfDiscovery(m) && m.log != nil && (forall jn, gs in targets :: forall g in gs :: g != nil)
+  ensures[C17] @updated_jobs_are_replaced forall jn in targets :: (jn in m.config ==> (jn in m.activeTargets && jn in m.dropTargets && jn in result
+        && m.activeTargets[jn] == result[jn] && fresh(result[jn]) && fresh(m.dropTargets[jn])))
+  ensures[C17] @other_jobs_keep_their_targets forall jn in old(keys(m.activeTargets)) :: (jn in m.activeTargets && (!(jn in targets) ==> m.activeTargets[jn] == old(m.activeTargets[jn])))
+  ensures[C17] @other_jobs_keep_their_dropped_targets forall jn in old(keys(m.dropTargets)) :: (jn in m.dropTargets && (!(jn in targets) ==> m.dropTargets[jn] == old(m.dropTargets[jn])))
+  ensures[C17] @only_updated_jobs_appear forall jn in m.activeTargets :: (jn in old(keys(m.activeTargets)) || (jn in targets && jn in m.config))
+  ensures[C17] @only_updated_jobs_appear_dropped forall jn in m.dropTargets :: (jn in old(keys(m.dropTargets)) || (jn in targets && jn in m.config))
+  ensures[C17] @result_is_the_update_of_configured_jobs result != nil && fresh(result) && (forall jn in result :: jn in targets && jn in m.config)
+  ensures wfDiscovery(m)
+  modifies gHashIdx, gPending, gPendingDropped, mapof(TargetsDiscovery.activeTargets) at {m.activeTargets, m.dropTargets}, SDTargets.* at {}, target.Target.* at {},
+           github.com/prometheus/prometheus/scrape.Target.* at {}, net/url.URL.* at {}
+  loop 1 invariant actives != nil && drops != nil && fresh(actives) && fresh(drops) && actives != drops
+  loop 1 invariant forall jn in visited1 :: (jn in m.config ==> (jn in actives && jn in drops))
+  loop 1 invariant samemap(m.activeTargets) && samemap(m.dropTargets)
+  loop 1 invariant forall jn, l in actives :: jn in targets && jn in m.config && fresh(l) && wfTargets(l, jn)
+  loop 1 invariant forall jn, l in drops :: jn in targets && jn in m.config && fresh(l) && wfTargets(l, jn)
+  loop 2 invariant fresh(allActive) && fresh(allDrop) && wfTargets(allActive, job) && wfTargets(allDrop, job) && cfg != nil && cfg == m.config[job] && job in m.config
+  loop 3 invariant fresh(allActive) && fresh(allDrop) && wfTargets(allActive, job) && wfTargets(allDrop, job) && cfg != nil && cfg == m.config[job] && job in m.config
+  loop 2 invariant forall jn, l in actives :: fresh(l) && wfTargets(l, jn)
+  loop 2 invariant forall jn, l in drops :: fresh(l) && wfTargets(l, jn)
+  loop 3 invariant forall jn, l in actives :: fresh(l) && wfTargets(l, jn)
+  loop 3 invariant forall jn, l in drops :: fresh(l) && wfTargets(l, jn)
+  loop 3 invariant forall t in ts :: t != nil && t.ShardTarget != nil && t.PromTarget != nil && t.Job == cfg.JobName
+  loop 4 invariant actives != nil && drops != nil && fresh(actives) && fresh(drops) && actives != drops
+  loop 4 invariant forall jn, l in actives :: jn in targets0 && jn in m.config && fresh(l) && wfTargets(l, jn)
+  loop 4 invariant forall jn, l in drops :: jn in targets0 && jn in m.config && fresh(l) && wfTargets(l, jn)
+  loop 4 invariant forall jn in targets0 :: (jn in m.config ==> (jn in actives && jn in drops))
+  loop 4 invariant forall jn in visited4 :: (jn in actives && jn in m.activeTargets && m.activeTargets[jn] == actives[jn])
+  loop 4 invariant forall jn in m.activeTargets :: (jn in visited4 || (jn in old(keys(m.activeTargets)) && m.activeTargets[jn] == old(m.activeTargets[jn])))
+  loop 4 invariant forall jn in old(keys(m.activeTargets)) :: jn in m.activeTargets
+  loop 4 invariant samemap(m.dropTargets)
+  loop 5 invariant actives != nil && drops != nil && fresh(actives) && fresh(drops) && actives != drops
+  loop 5 invariant forall jn, l in actives :: jn in targets0 && jn in m.config && fresh(l) && wfTargets(l, jn)
+  loop 5 invariant forall jn, l in drops :: jn in targets0 && jn in m.config && fresh(l) && wfTargets(l, jn)
+  loop 5 invariant forall jn in targets0 :: (jn in m.config ==> (jn in actives && jn in drops))
+  loop 5 invariant forall jn in actives :: (jn in m.activeTargets && m.activeTargets[jn] == actives[jn])
+  loop 5 invariant forall jn in m.activeTargets :: (jn in actives || (jn in old(keys(m.activeTargets)) && m.activeTargets[jn] == old(m.activeTargets[jn])))
+  loop 5 invariant forall jn in old(keys(m.activeTargets)) :: jn in m.activeTargets
+  loop 5 invariant forall jn in visited5 :: (jn in drops && jn in m.dropTargets && m.dropTargets[jn] == drops[jn])
+  loop 5 invariant forall jn in m.dropTargets :: (jn in visited5 || (jn in old(keys(m.dropTargets)) && m.dropTargets[jn] == old(m.dropTargets[jn])))
+  loop 5 invariant forall jn in old(keys(m.dropTargets)) :: jn in m.dropTargets
+@*/
